@@ -34,6 +34,9 @@ type Opts struct {
 	StreamViews bool
 	// Unions lets a share of the designs carry OneOf attributes in request/response bodies (gen/union.go).
 	Unions bool
+	// DocOnlyGadgets adds (openapi profile, every twelfth design) a service whose generated code is known not to compile
+	// but whose documents are judged (checks that judge the documents of uncompiled designs: C07).
+	DocOnlyGadgets bool
 	// Multipart lets a share of the body-carrying methods be MultipartRequest() endpoints in Runtime mode (gen/multipart.go).
 	Multipart bool
 	// MultipartFew divides that share by three (checks that cannot decide multipart exchanges: C14).
@@ -154,6 +157,7 @@ func Generate(r *vc.Rand, id string, o Opts) *spec.Spec {
 	if o.Runtime && !o.NoGadgets {
 		x.genGadgetService()         // gadgets.go
 		x.genSecurityGadgetService() // gadgets.go
+		x.genDocOnlyGadgetService()  // gadgets.go
 	}
 	if !o.Runtime && !o.NoGadgets {
 		x.genPathOrderGadget() // gadgets.go
